@@ -330,7 +330,13 @@ fn random_tx(rng: &mut StdRng, st: &Value) -> Vec<Value> {
                 let id = if rng.gen_bool(0.8) && !fresh.is_empty() { *fresh.choose(rng).unwrap() } else { rng.gen_range(1..=8) };
                 v.push(ins("MintNF", "", "N", 0, vec![id], 0))
             }
-            10 => v.push(ins("MintRuid", "", "U", rng.gen_range(1..=2), vec![], 0)),
+            10 => {
+                if rng.gen_bool(0.5) {
+                    v.push(ins("MintRuid", "", "U", rng.gen_range(1..=2), vec![], 0))
+                } else {
+                    v.push(ins("MintSingleRuid", "", "U", 0, vec![], 0))
+                }
+            }
             11 => {
                 nb += 1;
                 live.push(nb);
